@@ -57,6 +57,9 @@ TEXTS.update({
  "C11": _t("rapid property tests; round trip old + served patch == new with an independent RFC 5261 applier and canonical XML comparison; generated tree pairs for MPDDiff",
            EXPL_NOTE + "HTTP pairs cover additions, removals, repeat-count changes, wraps, period changes, 425 and 410; thousands of generated id-carrying trees for the diff itself.",
            TRUST + " internal/xmlpatch is the harness's own applier; one open known finding (KF-C11-base-mismatch).", "DESIGN.md §7 C11"),
+ "C10": _t("rapid property test; round trip MPD kid -> init kid -> licence/CPIX key -> decrypt -> clear segment (differential with the DRM-free response)",
+           EXPL_NOTE + "ClearKey cenc/cbcs and both CPIX packages, video and re-segmented audio, whole and chunked delivery, bundled and generated assets; a pre-encrypted asset built from livesim2's own output must be refused.",
+           TRUST + " mp4ff decrypts (third-party, separate from the encrypt call).", "DESIGN.md §7 C10"),
 })
 
 _claimed = set(TEXTS)
